@@ -26,12 +26,10 @@ theorem paused_iff {u : Int} {st : List (Identity × RawEntry)} {me : Identity} 
   cases hp : parseAll now st with
   | error e => simp [hp] at h
   | ok ps =>
-    simp only [hp, decideP] at h
-    split at h
-    · cases h
-    · injection h with h
-      subst h
-      constructor
+    simp only [hp] at h
+    have h := decideP_ok h
+    subst h
+    · constructor
       · obtain ⟨b, hb⟩ := decideCore_paused_isSome (u := u) (ps := ps) (me := me) (myPrio := p) (ac := ac)
           (t0 := t0) (now := now) (now2 := now2)
         rw [hb]; cases b <;> simp
@@ -310,12 +308,10 @@ theorem dead_cleaned {u : Int} {st : List (Identity × RawEntry)} {me : Identity
   cases hp : parseAll now st with
   | error e => simp [hp] at h
   | ok ps =>
-    simp only [hp, decideP] at h
-    split at h
-    · cases h
-    · injection h with h
-      subst h
-      simp only [decideCore, if_true, deadPeers, List.mem_map, List.mem_filter]
+    simp only [hp] at h
+    have h := decideP_ok h
+    subst h
+    · simp only [decideCore, if_true, deadPeers, List.mem_map, List.mem_filter]
       constructor
       · rintro ⟨q, ⟨hq, hd⟩, rfl⟩
         obtain ⟨j, e, hm, hmk⟩ := (parseAll_mem hp q).mp hq
